@@ -27,6 +27,7 @@ Scalars8881 == {0 - 8882, 0 - 1, 0, 3, 8881}
 Empty == {}
 EKeys7 == 2..6
 EAll7 == 0..6
+EScal7 == {0, 1, 3, 6}
 EKeys11 == 2..10
 ESome11 == {0, 1, 5, 10}
 =============================================================================
